@@ -23,7 +23,7 @@ import torch
 from harness.common import zlit, qlit, listlit
 from tracer import emit
 
-PROPS = ['C17_ms_tv_nonneg', 'C17_ms_tv_uniform', 'C17_speckle_uniform_window', 'C17_speckle_finite_refuted', 'C17_speckle_finite_partial',
+PROPS = ['C17_rvb_history_iff', 'C17_rvb_history_independent', 'C17_flag_from_self_refuted', 'C17_ms_tv_nonneg', 'C17_ms_tv_uniform', 'C17_speckle_uniform_window', 'C17_speckle_finite_refuted', 'C17_speckle_finite_partial',
          'C17_stats_loss_nonneg', 'C17_stats_loss_identity', 'C17_metameric_value_nonneg', 'C17_metameric_value_identity',
          'C17_blur_lowpass_value_nonneg', 'C17_blur_lowpass_value_identity', 'C17_blur_match_value_nonneg', 'C17_metamer_mse_value_nonneg',
          'C17_metamer_mse_value_zero', 'C17_lod_hit_iff_key', 'C17_lod_miss_recomputes', 'C17_metameric_reuse_iff_key', 'C17_metamer_mse_reuse_iff_key',
@@ -72,17 +72,42 @@ def val(v):
 
 
 # ================================================================ gaze-contingent losses (state machines)
+# configuration codes of the model (Model.v: cfg): the arguments besides shape and gaze that select the pooling map.
+# Code 0 is the default every constructor / blur() falls back to.
+CFGS = [
+    {'alpha': 0.2, 'real_image_width': 0.2, 'real_viewing_distance': 0.7, 'mode': 'quadratic', 'equi': False},
+    {'alpha': 0.2, 'real_image_width': 0.2, 'real_viewing_distance': 0.7, 'mode': 'quadratic', 'equi': True},
+    {'alpha': 0.2, 'real_image_width': 0.2, 'real_viewing_distance': 0.7, 'mode': 'linear', 'equi': False},
+    {'alpha': 0.2, 'real_image_width': 0.2, 'real_viewing_distance': 0.7, 'mode': 'linear', 'equi': True},
+    {'alpha': 0.3, 'real_image_width': 0.2, 'real_viewing_distance': 0.7, 'mode': 'quadratic', 'equi': False},
+    {'alpha': 0.2, 'real_image_width': 0.3, 'real_viewing_distance': 0.7, 'mode': 'quadratic', 'equi': False},
+    {'alpha': 0.2, 'real_image_width': 0.2, 'real_viewing_distance': 0.5, 'mode': 'quadratic', 'equi': False},
+]
 KINDS = {
-    # name: (machine id in Model.v, constructor)
-    'blur_lowpass': (1, lambda P: P.BlurLoss(blur_source=True)),
-    'blur_match': (1, lambda P: P.BlurLoss(blur_source=False, alpha=0.3)),
-    'metameric': (2, lambda P: P.MetamericLoss(n_pyramid_levels=2, n_orientations=2)),
-    'metameric_radial': (2, lambda P: P.MetamericLoss(n_pyramid_levels=2, n_orientations=2, use_l2_foveal_loss=False, use_radial_weight=True)),
-    'metameric_fullres': (2, lambda P: P.MetamericLoss(n_pyramid_levels=2, n_orientations=1, use_l2_foveal_loss=False, use_fullres_l0=True, mode='linear')),
-    'metamer_mse': (3, lambda P: P.MetamerMSELoss(n_pyramid_levels=2, n_orientations=2)),
-    'metameric_uniform': (2, lambda P: P.MetamericLossUniform(n_pyramid_levels=2, n_orientations=2, pooling_size=8)),
+    # name: (machine id in Model.v, constructor, configuration code the object is constructed with)
+    'blur_lowpass': (1, lambda P: P.BlurLoss(blur_source=True), 0),
+    'blur_match': (1, lambda P: P.BlurLoss(blur_source=False, alpha=0.3), 4),
+    'metameric': (2, lambda P: P.MetamericLoss(n_pyramid_levels=2, n_orientations=2), 0),
+    'metameric_radial': (2, lambda P: P.MetamericLoss(n_pyramid_levels=2, n_orientations=2, use_l2_foveal_loss=False, use_radial_weight=True), 0),
+    'metameric_fullres': (2, lambda P: P.MetamericLoss(n_pyramid_levels=2, n_orientations=1, use_l2_foveal_loss=False, use_fullres_l0=True, mode='linear'), 2),
+    'metamer_mse': (3, lambda P: P.MetamerMSELoss(n_pyramid_levels=2, n_orientations=2), 0),
+    'metameric_uniform': (2, lambda P: P.MetamericLossUniform(n_pyramid_levels=2, n_orientations=2, pooling_size=8), 0),
+    # non-default configurations: equirectangular mode (the gaze is a pair of angles), linear mode, the other flag combinations
+    'blur_lowpass_equi': (1, lambda P: P.BlurLoss(blur_source=True, equi=True), 1),
+    'blur_match_linear_equi': (1, lambda P: P.BlurLoss(blur_source=False, mode='linear', equi=True), 3),
+    'metameric_equi': (2, lambda P: P.MetamericLoss(n_pyramid_levels=2, n_orientations=2, equi=True), 1),
+    'metameric_plain_linear_equi': (2, lambda P: P.MetamericLoss(n_pyramid_levels=2, n_orientations=1, use_l2_foveal_loss=False, mode='linear', equi=True), 3),
+    'metameric_radial_fullres': (2, lambda P: P.MetamericLoss(n_pyramid_levels=2, n_orientations=1, use_l2_foveal_loss=False, use_fullres_l0=True, use_radial_weight=True), 0),
+    'metamer_mse_equi': (3, lambda P: P.MetamerMSELoss(n_pyramid_levels=2, n_orientations=2, equi=True), 1),
 }
-SHAPES = {3032: (1, 3, 32, 32), 3048: (1, 3, 48, 48), 1032: (1, 1, 32, 32), 3040: (1, 3, 40, 32)}
+BASE_KINDS = ('blur_lowpass', 'blur_match', 'metameric', 'metameric_radial', 'metameric_fullres', 'metamer_mse', 'metameric_uniform')
+
+
+def kind_equi(kind):
+    return CFGS[KINDS[kind][2]]['equi']
+
+
+SHAPES = {3032: (1, 3, 32, 32), 3048: (1, 3, 48, 48), 1032: (1, 1, 32, 32), 3040: (1, 3, 40, 32), 3024: (1, 3, 24, 32), 3025: (1, 3, 25, 30), 1024: (1, 1, 24, 32)}
 
 
 def content_tensor(content, base_seed=0):
@@ -100,7 +125,10 @@ def content_tensor(content, base_seed=0):
     return rand_tensor(SHAPES[code], 7919 * d + code + base_seed)
 
 
-def gaze_val(g):
+def gaze_val(g, equi=False):
+    """the Python gaze list denoted by a model gaze; in equirectangular mode the gaze is (yaw, pitch) in radians"""
+    if equi:
+        return [(g[0] / GU - 0.5) * 2 * math.pi * 0.95, (g[1] / GU - 0.5) * math.pi * 0.95]
     return [g[0] / GU, g[1] / GU]
 
 
@@ -157,7 +185,7 @@ class Fresh:
         if key not in self.memo:
             P = api()[0]
             obj = KINDS[kind][1](P)
-            self.memo[key] = call_loss(kind, obj, content_tensor(ci), content_tensor(ct), gaze_val(g))
+            self.memo[key] = call_loss(kind, obj, content_tensor(ci), content_tensor(ct), gaze_val(g, kind_equi(kind)))
         return self.memo[key]
 
 
@@ -171,17 +199,18 @@ def run_history(kind, env, ops):
     contents = [tuple(c) for c in env['tensors']]
     tensors = [content_tensor(c) for c in contents]
     gvals = [tuple(g) for g in env['gazes']]
-    gazes = [gaze_val(g) for g in gvals]
+    eq = kind_equi(kind)
+    gazes = [gaze_val(g, eq) for g in gvals]
     out = []
     for op in ops:
         if op[0] == 'call':
-            _, i, t, g = op
+            _, i, t, g = op[:4]
             with Counters() as cnt:
                 v = call_loss(kind, obj, tensors[i], tensors[t], gazes[g])
             out.append((v, contents[i], contents[t], gvals[g], (cnt.lod, cnt.pyr) if cnt.ok else None))
         elif op[0] == 'setgaze':
             _, g, v = op
-            gazes[g][0], gazes[g][1] = v[0] / GU, v[1] / GU              # in place: same list object
+            gazes[g][0], gazes[g][1] = gaze_val(v, eq)                   # in place: same list object
             gvals[g] = tuple(v)
         elif op[0] == 'setdata':
             _, t, d = op
@@ -205,10 +234,10 @@ def coq_env(env):
         listlit(['(%s, %s)' % (zlit(g[0]), zlit(g[1])) for g in env['gazes']]))
 
 
-def coq_ops(ops):
+def coq_ops(ops, cfg=0):
     out = []
     for op in ops:
-        if op[0] == 'call': out.append('Call %d%%nat %d%%nat %d%%nat' % (op[1], op[2], op[3]))
+        if op[0] == 'call': out.append('Call %d%%nat %d%%nat %d%%nat %s' % (op[1], op[2], op[3], zlit(op[4] if len(op) > 4 else cfg)))
         elif op[0] == 'setgaze': out.append('SetGaze %d%%nat (%s, %s)' % (op[1], zlit(op[2][0]), zlit(op[2][1])))
         else: out.append('SetData %d%%nat %s' % (op[1], zlit(op[2])))
     return listlit(out)
@@ -220,17 +249,21 @@ def parse_runs(s):
 
 
 def eval_descriptor(fresh, kind, d):
-    """value denoted by a model result, computed with fresh objects (None: not expressible that way)"""
+    """value denoted by a model result, computed with fresh objects (None: not expressible that way).
+    Encodings (Model.v enc_out): lod = [shape, cfg, gx, gy]"""
+    c0 = KINDS[kind][2]
     if d[0] == 0:
         return 'crash'
-    if d[0] == 1:                                   # BlurOut img tgt (Lod shape g)
-        return fresh(kind, (d[1], d[2]), (d[3], d[4]), (d[6], d[7]))
-    if d[0] == 2:                                   # MetOut img (Lod sh g1) (Stats tgt (Lod sh2 g2))
-        if kind != 'metameric_uniform' and (d[4], d[5]) != (d[9], d[10]):
+    if d[0] == 1:                                   # BlurOut img tgt lod
+        if d[6] != c0: return None
+        return fresh(kind, (d[1], d[2]), (d[3], d[4]), (d[7], d[8]))
+    if d[0] == 2:                                   # MetOut img lod1 (Stats tgt lod2)
+        if kind != 'metameric_uniform' and ((d[5], d[6]) != (d[11], d[12]) or d[4] != c0 or d[10] != c0):
             return None
-        return fresh(kind, (d[1], d[2]), (d[6], d[7]), (d[4], d[5]))
-    if d[0] == 3:                                   # MseOut img (Metamer tgt (Lod sh g))
-        return fresh(kind, (d[1], d[2]), (d[3], d[4]), (d[6], d[7]))
+        return fresh(kind, (d[1], d[2]), (d[7], d[8]), (d[5], d[6]))
+    if d[0] == 3:                                   # MseOut img (Metamer tgt lod)
+        if d[6] != c0: return None
+        return fresh(kind, (d[1], d[2]), (d[3], d[4]), (d[7], d[8]))
     raise ValueError(d)
 
 
@@ -475,18 +508,18 @@ def oracle_gaze_loss(inp):
     img = content_tensor((code, inp['img'])); tgt = content_tensor((code, inp['tgt']))
     if inp.get('scale'):
         img = img * inp['scale']; tgt = tgt * inp['scale']
-    g = gaze_val(inp['gaze'])
+    g = gaze_val(inp['gaze'], kind_equi(kind))
     v = call_loss(kind, mk(P), img, tgt, g)
     out = [('no_exception', not isinstance(v, str), 'a value', v)]
     if isinstance(v, str):
         return out
     out += [('finite', math.isfinite(v), 'finite', v), ('nonneg', v >= 0, '>= 0', v)]
-    if kind == 'metamer_mse':
+    if kind.startswith('metamer_mse'):
         # the loss compares the image with the METAMER of the target: its zero is at image = that metamer
         obj = mk(P); met = obj.gen_metamer(tgt, g)
         z = call_loss(kind, mk(P), met, tgt, g)
         out.append(('zero_at_target_metamer', (not isinstance(z, str)) and abs(z) <= ZERO_TOL, 0.0, z))
-    elif kind != 'blur_match':
+    elif not kind.startswith('blur_match'):
         z = call_loss(kind, mk(P), tgt.clone(), tgt, g)
         out.append(('zero_at_identity', (not isinstance(z, str)) and abs(z) <= ZERO_TOL, 0.0, z))
     v2 = call_loss(kind, mk(P), img, tgt, g)
@@ -503,12 +536,14 @@ ORACLES = {'stateless': oracle_stateless, 'history': oracle_history}      # + 'r
 FN = {'wmse': 'odak.learn.tools.wrapped_mean_squared_error', 'tv': 'odak.learn.tools.total_variation_loss',
       'hist': 'odak.learn.tools.histogram_loss', 'multiplane': 'odak.learn.wave.multiplane_loss', 'psnr': 'odak.learn.perception.PSNR',
       'speckle': 'odak.learn.wave.speckle_contrast', 'phase_gradient': 'odak.learn.wave.phase_gradient'}
-CLS = {'blur_lowpass': 'BlurLoss', 'blur_match': 'BlurLoss', 'metameric': 'MetamericLoss', 'metameric_radial': 'MetamericLoss',
+CLS = {'blur_lowpass_equi': 'BlurLoss', 'blur_match_linear_equi': 'BlurLoss', 'metameric_equi': 'MetamericLoss', 'metameric_plain_linear_equi': 'MetamericLoss',
+       'metameric_radial_fullres': 'MetamericLoss', 'metamer_mse_equi': 'MetamerMSELoss',
+       'blur_lowpass': 'BlurLoss', 'blur_match': 'BlurLoss', 'metameric': 'MetamericLoss', 'metameric_radial': 'MetamericLoss',
        'metameric_fullres': 'MetamericLoss', 'metamer_mse': 'MetamerMSELoss', 'metameric_uniform': 'MetamericLossUniform'}
 
 
 def fname(name, inp):
-    if name == 'rvb':
+    if name in ('rvb', 'rvb_history'):
         return 'odak.learn.perception.RadiallyVaryingBlur'
     if name == 'history' or inp.get('family') == 'gaze_loss':
         return 'odak.learn.perception.' + CLS[inp['kind']]
@@ -535,6 +570,138 @@ def apply_oracle(ctx, name, inp, fresh=None):
             if seen[key] <= 3:                       # a few inputs per (function, clause); the rest is counted only
                 ctx.violation(fname(name, inp), clause, dict(inp, oracle=name), exp, obs)
     return bad, res
+
+
+# ================================================================ RadiallyVaryingBlur.blur as a state machine (model machine 4)
+def rvb_call(obj, x, cfg, gaze):
+    c = CFGS[cfg]
+    return obj.blur(x, c['alpha'], c['real_image_width'], c['real_viewing_distance'], gaze, c['mode'], c['equi'])
+
+
+class FreshBlur:
+    def __init__(self): self.memo = {}
+    def __call__(self, ci, cfg, g):
+        key = (tuple(ci), cfg, tuple(g))
+        if key not in self.memo:
+            import odak.learn.perception as P
+            try:
+                self.memo[key] = rvb_call(P.RadiallyVaryingBlur(), content_tensor(ci), cfg, gaze_val(g))
+            except Exception as e:
+                self.memo[key] = 'crash:' + type(e).__name__
+        return self.memo[key]
+
+
+def run_rvb_history(env, ops):
+    """ops: ['call', i, _, g, cfg] | setgaze | setdata on ONE RadiallyVaryingBlur; the configuration is an argument of every call"""
+    import odak.learn.perception as P
+    obj = P.RadiallyVaryingBlur()
+    contents = [tuple(c) for c in env['tensors']]
+    tensors = [content_tensor(c) for c in contents]
+    gvals = [tuple(g) for g in env['gazes']]
+    gazes = [gaze_val(g) for g in gvals]
+    out = []
+    for op in ops:
+        if op[0] == 'call':
+            _, i, _, g, cfg = op
+            with Counters() as cnt:
+                try:
+                    y = rvb_call(obj, tensors[i], cfg, gazes[g])
+                except Exception as e:
+                    y = 'crash:' + type(e).__name__
+            out.append((y, contents[i], cfg, gvals[g], cnt.lod if cnt.ok else None))
+        elif op[0] == 'setgaze':
+            _, g, v = op
+            gazes[g][0], gazes[g][1] = gaze_val(v); gvals[g] = tuple(v)
+        else:
+            _, t, d = op
+            contents[t] = (contents[t][0], d)
+            with torch.no_grad():
+                tensors[t].copy_(content_tensor(contents[t]))
+    return out
+
+
+def same_blur(a, b):
+    if isinstance(a, str) or isinstance(b, str):
+        return isinstance(a, str) and isinstance(b, str)
+    return tuple(a.shape) == tuple(b.shape) and bool(torch.allclose(a, b, rtol=1e-6, atol=1e-7, equal_nan=True))
+
+
+def oracle_rvb_history(inp):
+    """every blur(image, configuration, centre) on an object with a history equals the blur of a fresh object"""
+    fresh = inp.get('_fresh') or FreshBlur()
+    out = []
+    for k, (y, ci, cfg, g, _) in enumerate(run_rvb_history(inp['env'], inp['ops'])):
+        f = fresh(ci, cfg, g)
+        ok = same_blur(y, f)
+        diff = None if isinstance(y, str) or isinstance(f, str) or tuple(y.shape) != tuple(f.shape) else float((y - f).abs().max())
+        out.append(('blur_history_independent', ok, {'call': k, 'configuration': CFGS[cfg], 'fresh_object': 'its blur'},
+                    {'call': k, 'max_abs_difference_to_fresh': diff, 'object_with_history': y if isinstance(y, str) else 'a tensor'}))
+    return out
+
+
+def gen_rvb_histories(ctx):
+    rng = ctx.rng
+    hs = []
+    e = {'tensors': [(3024, 1), (3025, 2), (1024, 3), (3024, 4)], 'gazes': [(430000, 610000), (700000, 250000)]}
+    n = len(CFGS)
+    for c1 in range(n):
+        for c2 in range(n):
+            hs.append(('cfg%d-then-cfg%d' % (c1, c2), e,
+                       [['call', 0, 0, 0, c1], ['call', 0, 0, 0, c2], ['call', 0, 0, 1, c2], ['setgaze', 1, [310000, 520000]], ['call', 3, 3, 1, c2], ['call', 0, 0, 0, c1]]))
+    for k in range(30 if ctx.thorough else 8):
+        ops = []
+        for _ in range(rng.randint(4, 9)):
+            r = rng.random()
+            if r < 0.7: ops.append(['call', rng.randrange(4), 0, rng.randrange(2), rng.choice([0, 0, 1, 1, 2, 3, 4, 5, 6])])
+            elif r < 0.9: ops.append(['setgaze', rng.randrange(2), [rng.randint(100000, 900000), rng.randint(100000, 900000)]])
+            else: ops.append(['setdata', rng.randrange(4), rng.randint(1, 9)])
+        ops.append(['call', 0, 0, 0, rng.randrange(n)])
+        hs.append(('random', e, ops))
+    return hs
+
+
+def rvb_machine_correspondence(ctx):
+    hs = gen_rvb_histories(ctx)
+    terms = []
+    for (_, env, ops) in hs:
+        terms.append('machine_run 4 repaired 0 %s %s' % (coq_env(env), coq_ops(ops)))
+        terms.append('machine_events 4 repaired 0 %s %s' % (coq_env(env), coq_ops(ops)))
+    vals = ctx.coq_eval(PRE, terms, label='rvbmachine', chunk=60)
+    fresh = FreshBlur()
+    mism = 0; total = 0; stale = []; noinstr = 0
+    for hi_, (label, env, ops) in enumerate(hs):
+        pr = None if vals[2 * hi_] is None else parse_runs(vals[2 * hi_]); ev = None if vals[2 * hi_ + 1] is None else parse_runs(vals[2 * hi_ + 1])
+        inp = {'env': env, 'ops': ops, 'label': label}
+        try:
+            recs = run_rvb_history(env, ops)
+        except Exception as ex:
+            ctx.violation('odak.learn.perception.RadiallyVaryingBlur', 'no_exception', dict(inp, oracle='rvb_history'), 'a result', repr(ex)[:300]); mism += 1
+            continue
+        if pr is None or ev is None or len(pr) != len(recs) or len(ev) != len(recs):
+            mism += 1; continue
+        for c, ((y, ci, cfg, g, lod), d) in enumerate(zip(recs, pr)):
+            total += 1; ctx.traces += 1
+            # descriptor [4, shape, data, shape, cfg, gx, gy]: the blur of a fresh object with THAT configuration and gaze
+            exp = fresh((d[1], d[2]), d[4], (d[5], d[6])) if d[0] == 4 else 'crash'
+            if not same_blur(y, exp):
+                mism += 1
+                if mism <= 4: ctx.log('RadiallyVaryingBlur machine/implementation disagree: %s call %d: model=%s' % (label, c, d))
+            if isinstance(y, str): continue
+            if lod is None: noinstr += 1
+            elif ev[c][1] == 1 and lod == 0:
+                stale.append({'history': label, 'call': c, 'ops': ops})
+        ctx.case('rvb-history/%s' % ('pair' if label.startswith('cfg') else label), json.dumps(inp), nontrivial=True)
+        arg = dict(inp); arg['_fresh'] = fresh
+        for clause, ok, expd, obs in oracle_rvb_history(arg):
+            if not ok:
+                key = 'rvbhist/' + clause
+                seen = ctx.extra.setdefault('_reported', {}); seen[key] = seen.get(key, 0) + 1
+                if seen[key] <= 3:
+                    ctx.violation('odak.learn.perception.RadiallyVaryingBlur', clause, dict(inp, oracle='rvb_history'), expd, obs)
+    ctx.obligation('correspondence:RadiallyVaryingBlur-machine(model run in Coq = implementation on %d blur calls of %d histories over %d configurations, every ordered pair)' % (total, len(hs), len(CFGS)),
+                   mism == 0 and total > 0, '%d calls disagree' % mism)
+    ctx.obligation('correspondence:RadiallyVaryingBlur-cache-events(the LOD map is reused only where the model reuses it)', not stale and noinstr == 0,
+                   ('first: %s' % json.dumps(stale[0])[:400]) if stale else ('instrumentation missing' if noinstr else ''))
 
 
 # ================================================================ RadiallyVaryingBlur: the cache key, argument by argument
@@ -586,6 +753,8 @@ def gen_rvb(ctx):
         vs = variants(a)
         for name, b in vs:
             cases.append({'family': 'rvb', 'change': name, 'first': a, 'second': b, 'seed': rng.randrange(10 ** 6)})
+            if name in ('mode', 'equi') or name.startswith('shape') or name.endswith('(1+0.5)'):
+                cases.append({'family': 'rvb', 'change': 'back from ' + name, 'first': b, 'second': a, 'seed': rng.randrange(10 ** 6)})
         for _ in range(6):                                  # two arguments at once
             (n1, b1), (n2, b2) = rng.sample(vs[1:], 2)
             b = dict(a)
@@ -669,11 +838,11 @@ def gen_stateless(ctx):
     for kind in KINDS:
         for k in range(3 * n):
             # MetamerMSELoss documents RGB input only (its metamer generator converts RGB -> YCrCb unconditionally)
-            cs.append({'family': 'gaze_loss', 'kind': kind, 'code': rng.choice([3032, 3048, 3040] + ([] if kind == 'metamer_mse' else [1032])), 'img': rng.randint(1, 9), 'tgt': rng.randint(1, 9),
+            cs.append({'family': 'gaze_loss', 'kind': kind, 'code': rng.choice([3032, 3048, 3040] + ([] if kind.startswith('metamer_mse') else [1032])), 'img': rng.randint(1, 9), 'tgt': rng.randint(1, 9),
                        'gaze': rng.choice([[rng.randint(0, 10) * T, rng.randint(0, 10) * T], [rng.randint(0, GU), rng.randint(0, GU)]])})
         # boundary: zero target / zero image, gaze on a corner, tiny and large intensities
         cs.append({'family': 'gaze_loss', 'kind': kind, 'code': 3032, 'img': 1, 'tgt': 0, 'gaze': [5 * T, 5 * T]})
-        cs.append({'family': 'gaze_loss', 'kind': kind, 'code': 3032 if kind == 'metamer_mse' else 1032, 'img': 0, 'tgt': 0, 'gaze': [0, 0]})
+        cs.append({'family': 'gaze_loss', 'kind': kind, 'code': 3032 if kind.startswith('metamer_mse') else 1032, 'img': 0, 'tgt': 0, 'gaze': [0, 0]})
         cs.append({'family': 'gaze_loss', 'kind': kind, 'code': 3032, 'img': 2, 'tgt': 3, 'gaze': [GU, GU], 'scale': rng.choice([1e-6, 50.0])})
     return cs
 
@@ -786,42 +955,53 @@ def observed_events(kind, counts):
     lod, pyr = counts
     if kind.startswith('blur'):
         return (False, lod > 0)
-    if kind == 'metamer_mse':
+    if kind.startswith('metamer_mse'):
         return (pyr > 0, lod > 0)
     return (pyr > 1, lod > 0)                      # one pyramid for the image, one more when the target is analysed again
 
 
+def kind_histories(kind, hs):
+    """which histories a loss configuration is run on (the non-default configurations skip the exhaustive 2-call family)"""
+    for hi_, (label, env, ops) in enumerate(hs):
+        if kind == 'metameric_uniform' and label.startswith('gaze-step'):
+            continue                                  # takes no gaze
+        if kind not in BASE_KINDS and label.startswith('exhaustive') and label != 'exhaustive1':
+            continue
+        yield hi_, label, env, ops
+
+
 def machine_correspondence(ctx, hs, fresh):
-    terms = []
-    for (_, env, ops) in hs:
-        for mach in (1, 2, 3):
-            for d in ('repaired', 'legacy'):
-                terms.append('machine_run %d %s %s %s' % (mach, d, coq_env(env), coq_ops(ops)))
-            terms.append('machine_events %d repaired %s %s' % (mach, coq_env(env), coq_ops(ops)))
-        terms.append('machine_events 2 repaired %s %s' % (coq_env(env), coq_ops(uniform_ops(ops))))
-    vals = ctx.coq_eval(PRE, terms, label='machines', chunk=100)
-    pred = {}; events = {}
-    k = 0
-    for hi_, _ in enumerate(hs):
-        for mach in (1, 2, 3):
-            for d in ('repaired', 'legacy'):
-                pred[(hi_, mach, d)] = None if vals[k] is None else parse_runs(vals[k]); k += 1
-            events[(hi_, mach)] = None if vals[k] is None else parse_runs(vals[k]); k += 1
-        events[(hi_, 'uniform')] = None if vals[k] is None else parse_runs(vals[k]); k += 1
+    # one model run per (machine, construction configuration) and history
+    combos = {}
+    for kind, (mach, _, c0) in KINDS.items():
+        key = 'uniform' if kind == 'metameric_uniform' else (mach, c0)
+        combos.setdefault(key, set()).update(hi_ for hi_, _, _, _ in kind_histories(kind, hs))
+    terms, index = [], []
+    for key, his in sorted(combos.items(), key=str):
+        for hi_ in sorted(his):
+            _, env, ops = hs[hi_]
+            if key == 'uniform':
+                terms.append('machine_events 2 repaired 0 %s %s' % (coq_env(env), coq_ops(uniform_ops(ops)))); index.append((key, hi_, 'events'))
+                continue
+            mach, c0 = key
+            terms.append('machine_run %d repaired %d %s %s' % (mach, c0, coq_env(env), coq_ops(ops, c0))); index.append((key, hi_, 'repaired'))
+            terms.append('machine_events %d repaired %d %s %s' % (mach, c0, coq_env(env), coq_ops(ops, c0))); index.append((key, hi_, 'events'))
+            if c0 == 0:
+                terms.append('machine_run %d legacy %d %s %s' % (mach, c0, coq_env(env), coq_ops(ops, c0))); index.append((key, hi_, 'legacy'))
+    vals = ctx.coq_eval(PRE, terms, label='machines', chunk=150)
+    table = {ix: (None if v is None else parse_runs(v)) for ix, v in zip(index, vals)}
     mism = 0; total = 0; legacy_like = 0
     ev_total = 0; stale_hits = []; extra_recomputes = 0; no_instr = 0
-    for kind, (mach, _) in KINDS.items():
-        for hi_, (label, env, ops) in enumerate(hs):
-            if kind == 'metameric_uniform' and label.startswith('gaze-step'):
-                continue                                  # takes no gaze
+    for kind, (mach, _, c0) in KINDS.items():
+        for hi_, label, env, ops in kind_histories(kind, hs):
             inp = {'kind': kind, 'env': env, 'ops': ops, 'label': label}
             try:
                 recs = run_history(kind, env, ops)
             except Exception as e:
                 ctx.violation(fname('history', inp), 'no_exception', dict(inp, oracle='history'), 'a result', repr(e)[:300]); mism += 1
                 continue
-            pr, pl = pred[(hi_, mach, 'repaired')], pred[(hi_, mach, 'legacy')]
-            ev = events[(hi_, 'uniform' if kind == 'metameric_uniform' else mach)]
+            pr, pl = table.get(((mach, c0), hi_, 'repaired')), table.get(((mach, c0), hi_, 'legacy'))
+            ev = table.get(('uniform', hi_, 'events')) if kind == 'metameric_uniform' else table.get(((mach, c0), hi_, 'events'))
             ncalls = sum(1 for o in ops if o[0] == 'call')
             if pr is None or ev is None or len(pr) != ncalls or len(ev) != ncalls or len(recs) != ncalls:
                 mism += 1; continue
@@ -926,6 +1106,7 @@ def run(ctx):
     machine_correspondence(ctx, hs, fresh)
     ORACLES['rvb'] = oracle_rvb
     rvb_key_check(ctx)
+    rvb_machine_correspondence(ctx)
     ctx.exhaustive = True
     ctx.extra['exhaustive_domain'] = 'all histories of <= %d calls over 2 gaze lists x 2 targets x 2 image sizes, for each of %d loss configurations' % (3 if ctx.thorough else 2, len(KINDS))
     # ---- direct oracles: stateless clauses
@@ -969,6 +1150,7 @@ def search(ctx):
 
 
 ORACLES['rvb'] = oracle_rvb
+ORACLES['rvb_history'] = oracle_rvb_history
 
 
 def replay(ctx, rec):
